@@ -1,6 +1,9 @@
 (* C01: total model count = number of models.  Property theorems only. *)
 From Coq Require Import List ZArith Bool Permutation.
 From DD Require Import Model.Circuit Proofs.PassLemmas Proofs.Enum Proofs.Semantics Proofs.DetCert.
+From DD Require Import Model.LexerD4 Model.LoadD4 Spec.D4Sem Proofs.LoadD4Graph Proofs.LoadD4Ops
+  Proofs.LoadD4Pass2 Proofs.LoadD4Struct Proofs.LoadD4Pass3 Proofs.LoadD4Sem Proofs.LoadD4Count
+  Proofs.LoadD4Examples.
 Import ListNotations.
 
 (* The cached root count of every well-formed flattened circuit is the number of rows of the
@@ -35,3 +38,88 @@ Definition ex_iff : circuit :=
   [Lit 1; Lit (-1); Lit 2; Lit (-2); And [0;2]%nat; And [1;3]%nat; Or [4;5]%nat].
 Example ex_iff_wf : WF ex_iff 2 /\ root_count ex_iff = 2 /\ MC ex_iff 2 = 2.
 Proof. split; [apply check_wf_sound; vm_compute; reflexivity|split; vm_compute; reflexivity]. Qed.
+
+(* ---- the d4 loader (Model/LoadD4.v = build_d4_ddnnf + rebuild, tied to the code by the exact
+   correspondence of harness kind ld4) preserves the function of the file ----
+
+   d4_ok toks = no literal 0 and the part of the file below node 1 is a DAG (Spec/D4Sem.v);
+   declarations before use, indices in range, a live root: the loader panics otherwise
+   (load_d4 = None).  eval_d4 = value of node 1 of the raw d4 DAG (or: some edge whose literals
+   all hold and whose target holds; and: all edges; t; f; unmentioned features are free).
+   Proof: the line loop builds a graph that represents the file (edge-literal expansion over
+   shared literal leaves), the new root over the free features has the value of node 0, and each
+   of the three traversals preserves the value of every retained node on total assignments:
+   And(c, f or not f) = c, And(..,T) = And(..), Or(..,F) = Or(..), an And with a F child is F and
+   so is every And above it; rebuild renumbers. *)
+Theorem C01_d4_loader_sem : forall toks n C n',
+  d4_ok toks -> load_d4 toks n = Some (C, n') ->
+  n' = Nat.max n (d4_maxvar toks) /\ forall s, eval_root s C = eval_d4 toks s.
+Proof. exact load_d4_sem. Qed.
+Print Assumptions C01_d4_loader_sem.
+
+(* the same for the loader before the C18 repair, whatever order the hash set yields, and with or
+   without node-index recycling: the function never depended on them, only the child order did *)
+Theorem C01_d4_loader_sem_any_order : forall (recycle : bool) (ord : list nat -> list nat) toks n C n',
+  (forall l, Permutation (ord l) l) -> d4_ok toks ->
+  load_d4_gen recycle ord toks n = Some (C, n') ->
+  n' = Nat.max n (d4_maxvar toks) /\ forall s, eval_root s C = eval_d4 toks s.
+Proof. exact load_d4_gen_sem_perm. Qed.
+Print Assumptions C01_d4_loader_sem_any_order.
+
+(* the passes one by one (graph level): survivors of the true/false elimination keep label and
+   value; every node present before smoothing keeps label and value *)
+Theorem C01_d4_pass2_preserves : forall g root g', Inv g -> pass2 g root = Some g' ->
+  forall s x b, sg_alive g' x = true -> GV g s x b -> GV g' s x b.
+Proof. exact pass2_preserves. Qed.
+Print Assumptions C01_d4_pass2_preserves.
+
+Theorem C01_d4_pass3_preserves : forall st root st', tables_ok st -> pass3 true (fun l => l) st root = Some st' ->
+  forall s x b, GV (ls_g st) s x b -> GV (ls_g st') s x b.
+Proof. exact pass3_preserves. Qed.
+Print Assumptions C01_d4_pass3_preserves.
+
+(* "every conforming d4 file loads to a WF vector" is NOT proved (smoothness after balancing
+   with node sharing, the determinism certificate surviving the rewrites, reachability).  What
+   holds: if the loaded vector passes the verified checker - which the correspondence run
+   evaluates on every generated and corpus input - then it is WF and its cached root count is the
+   number of satisfying assignments of THE FILE over the loader's feature range 1..n'. *)
+Theorem C01_d4_loader_wf_partial : forall toks n C n',
+  d4_ok toks -> load_d4 toks n = Some (C, n') -> check_wf C n' = true ->
+  WF C n' /\ root_count C = Z.of_nat (length (d4_models toks n')).
+Proof. exact load_d4_count. Qed.
+Print Assumptions C01_d4_loader_wf_partial.
+
+(* ... and without the per-input check the statement is FALSE for the loader as it is (hence for
+   the code, by the exact correspondence: case "feature mentioned only in a dead branch" of run
+   ld4): a feature mentioned only below a dead branch is neither free nor kept.  The missing
+   side condition of a "conforming" file is that every mentioned feature is mentioned on a live
+   branch (d4's own output has it); the generator of the C01 input space enforces it. *)
+Theorem C01_d4_loader_wf_refuted : exists toks n C n',
+  d4_ok toks /\ load_d4 toks n = Some (C, n') /\ check_wf C n' = false /\
+  root_count C <> Z.of_nat (length (d4_models toks n')).
+Proof. exact loader_wf_refuted. Qed.
+Print Assumptions C01_d4_loader_wf_refuted.
+
+(* Non-vacuity: tests/data/small_ex_d4.nnf and a file with smoothing, a free feature, a false
+   edge and a shared node satisfy d4_ok, load (to the vectors the implementation dumped), pass
+   check_wf, and the count of the loaded vector is the truth-table count of the file. *)
+Ltac edges_nonzero := intros from to fs H;
+  repeat (destruct H as [H|H]; [try discriminate; injection H as <- <- <-; repeat constructor; discriminate|]);
+  destruct H.
+
+Example small_ex_d4_ok : d4_ok small_ex_d4.
+Proof. split; [edges_nonzero|]. eexists. vm_compute. reflexivity. Qed.
+Example mixed_d4_ok : d4_ok mixed_d4.
+Proof. split; [edges_nonzero|]. eexists. vm_compute. reflexivity. Qed.
+
+Example small_ex_d4_loaded :
+  load_d4 small_ex_d4 4 = Some (small_ex_d4_vector, 4%nat) /\ check_wf small_ex_d4_vector 4 = true /\
+  root_count small_ex_d4_vector = Z.of_nat (length (d4_models small_ex_d4 4)) /\
+  (0 < root_count small_ex_d4_vector).
+Proof. repeat split; vm_compute; reflexivity. Qed.
+Example mixed_d4_loaded :
+  load_d4 mixed_d4 5 = Some (mixed_d4_vector, 5%nat) /\ check_wf mixed_d4_vector 5 = true /\
+  root_count mixed_d4_vector = Z.of_nat (length (d4_models mixed_d4 5)) /\
+  (0 < root_count mixed_d4_vector) /\
+  eval_d4 mixed_d4 (asg_of [1; 2; -3; -4; -5]) = true /\ eval_d4 mixed_d4 (asg_of [-1; 2; 3; -4; 5]) = false.
+Proof. repeat split; vm_compute; reflexivity. Qed.
